@@ -461,7 +461,7 @@ def grad_broadcast_to(ans, x, new_shape):
     assert anp.shape(ans) == new_shape
     assert len(old_shape) == len(new_shape), "Can't handle extra leading dims"
     broadcast_axes = tuple(
-        onp.where(onp.logical_and(onp.array(old_shape) == 1, onp.array(new_shape) > 1))[0]
+        onp.where(onp.logical_and(onp.array(old_shape) == 1, onp.array(new_shape) != 1))[0]
     )
     return lambda g: anp.sum(g, axis=broadcast_axes, keepdims=True)
 
